@@ -118,7 +118,7 @@ CandsData(s, sc) ==
          THEN {[op |-> o, kind |-> kind, x |-> x, key |-> key] :
                   <<o, x, key>> \in {"del_item", "pop_item"} \X X \X {"name", "eid", "k"}} ELSE {})
         \cup (IF On(sc, "set_k:" \o kind)
-         THEN {[op |-> "set_item", kind |-> kind, x |-> x, key |-> "k", val |-> v] : <<x, v>> \in X \X {"u", "v"}}
+         THEN {[op |-> "set_item", kind |-> kind, x |-> x, key |-> "k", val |-> v] : <<x, v>> \in X \X {"u", "v", "g"}}
          ELSE {})
         \cup (IF On(sc, "props:" \o kind)
          THEN {[op |-> "mutate_props", kind |-> kind, x |-> x, val |-> "v1"] : x \in X}
